@@ -400,7 +400,7 @@ def check(pid, tier, seed, replay=None):
 
     violation = None
     if unlisted:
-        f = unlisted[0]
+        f = min(unlisted, key=lambda x: len(x.get("input", "")))  # report the smallest failing input
         violation = dict(property=pid, kind="failing-input", seed=seed, tier=tier, input=f["input"], key=f["key"],
                          oracle=f["what"], more=len(unlisted) - 1,
                          broken_ties=[dict(name=n, detail=d) for n, d in broken])
